@@ -235,6 +235,19 @@ func Templates() []Template {
 		T("draw-text", "tree.nw", "draw", "text"),
 		T("draw-svg", "tree.nw", "draw", "svg", "-o", "t.svg").out("t.svg"),
 		T("draw-svg-radial", "tree.nw", "draw", "svg", "-r", "-o", "t.svg", "--with-branch-support").out("t.svg"),
+		T("draw-svg-circular-w", "tree.nw", "draw", "svg", "-c", "-w", "400", "-o", "t.svg").out("t.svg"),
+		T("draw-svg-circular-h", "tree.nw", "draw", "svg", "-c", "-H", "300", "-o", "t.svg").out("t.svg"),
+		T("draw-png-circular-w", "tree.nw", "draw", "png", "-c", "-w", "300", "-o", "t.png").out("t.png"),
+		T("draw-png-radial-h", "tree.nw", "draw", "png", "-r", "-H", "300", "-o", "t.png").out("t.png"),
+		T("draw-text-w", "tree.nw", "draw", "text", "-w", "60"),
+		T("collapse-depth-min", "tree.nw", "collapse", "depth", "-m", "2"),
+		T("collapse-depth-max", "tree.nw", "collapse", "depth", "-M", "3"),
+		T("brlen-setrand-min-mean", "tree.nw", "brlen", "setrand", "--min-mean", "0.01").seeded(),
+		T("brlen-setrand-mean", "tree.nw", "brlen", "setrand", "-m", "0.5").seeded(),
+		T("roccurve-length-geq", "", "compute", "roccurve", "-i", "boot.nw", "-r", "tree.nw", "--length-geq", "0.01"),
+		T("rename-auto-internal-only", "rooted.nw", "rename", "-a", "--internal"),
+		T("labels-no-tips", "rooted.nw", "labels", "--internal", "--tips=false"),
+		T("brlen-scale-internal", "tree.nw", "brlen", "scale", "-f", "3", "--internal=false"),
 		T("draw-png", "tree.nw", "draw", "png", "-o", "t.png").out("t.png"),
 		T("draw-cyjs", "tree.nw", "draw", "cyjs", "-o", "t.html").out("t.html"),
 		T("generate-uniform", "", "generate", "uniformtree", "-l", "12", "-n", "2").seeded(),
